@@ -89,6 +89,7 @@ def adapters_deliver_exactly_once(chk: Check, rule: str = 'FUT-exactly-once', ca
                    'result, exception and cancellation reach the caller is left to code outside plumpy', kind='adapter-callback-present')
             continue
         out = output_future(chk, outer)
+        f = prog.view(f)   # (a local helper the callback delegates to -- "resolve this layer" -- is part of the callback)
         cfg = cfg_of(f)
         n_paths = 0
         bad: List[Tuple[str, List[str]]] = []
@@ -124,8 +125,9 @@ def adapters_deliver_exactly_once(chk: Check, rule: str = 'FUT-exactly-once', ca
                  and norm(c.func.value) == out]
         chk.ob(rule, outer, not other, f'"{out}" is resolved only by the adapter callback', kind='single-writer-function')
         # the callback is actually scheduled / registered exactly once
+        nested_defs = [d for d in ast.walk(outer.node) if isinstance(d, (ast.FunctionDef, ast.AsyncFunctionDef)) and d is not outer.node]
         refs = [n for n in ast.walk(outer.node) if isinstance(n, ast.Name) and n.id == f.name and isinstance(n.ctx, ast.Load)
-                and not any(n is x for x in ast.walk(f.node))]
+                and not any(n is x for d in nested_defs for x in ast.walk(d))]
         chk.ob(rule, outer, len(refs) == 1, f'{f.name} is scheduled / registered exactly once by {outer.name} ({len(refs)} references)',
                kind='registered-once')
         # cancellation of the input is tested before its result() is taken
